@@ -8,8 +8,10 @@ package main
 // paths) linear in the number of cells.
 
 import (
+	"encoding/hex"
 	"fmt"
 	"runtime"
+	"strings"
 	"time"
 
 	"github.com/tonkeeper/tongo/boc"
@@ -28,12 +30,16 @@ const (
 	c07HashTimeout      = 10 * time.Second
 )
 
-// c07.hash: bytes -> 'err | ((hash micros alloc boclen reparse cells) per root)
+// c07.hash: bytes -> 'err | ((hash micros alloc boclen reparse cells reuse) per root)
 //
 //	hash    'ok | 'err | 'panic  (Hash of a malformed exotic cell may fail)
 //	micros  wall time of Hash + ToBoc + re-parse
 //	alloc   heap bytes allocated by them (TotalAlloc delta)
 //	cells   number of distinct cells under the root
+//	reuse   one boc.Hasher used for Hash, HashString, Hash again,
+//	        ToBocCustomWithHasher and Hash of every direct child: 'ok, 'skip
+//	        (the fresh Hash itself panics: malformed exotic payload),
+//	        'panic-<step> or 'differs-<step> (not what a fresh cache answers)
 func execC07Hash(in sx.V) sx.V {
 	cells, err := boc.DeserializeBoc(in.Bytes)
 	if err != nil {
@@ -47,9 +53,95 @@ func execC07Hash(in sx.V) sx.V {
 		hash, boclen, reparse := c07HashAndBoc(root)
 		us := time.Since(t0).Microseconds()
 		runtime.ReadMemStats(&m1)
-		outs = append(outs, sx.L(sx.A(hash), sx.N(uint64(us)), sx.N(m1.TotalAlloc-m0.TotalAlloc), sx.Nat(boclen), sx.A(reparse), sx.Nat(c07CountCells(root))))
+		outs = append(outs, sx.L(sx.A(hash), sx.N(uint64(us)), sx.N(m1.TotalAlloc-m0.TotalAlloc), sx.Nat(boclen), sx.A(reparse), sx.Nat(c07CountCells(root)), sx.A(c07HasherReuse(root))))
 	}
 	return sx.L(outs...)
+}
+
+// c07HasherReuse: a long-lived boc.Hasher must answer every call exactly as a
+// fresh cache does, whatever it was asked before (in particular after a call
+// that returned ErrDepthIsTooBig), and never panic.
+func c07HasherReuse(root *boc.Cell) (status string) {
+	type ans struct {
+		val string
+		err string
+	}
+	errStr := func(err error) string {
+		if err == nil {
+			return ""
+		}
+		return "error: " + err.Error()
+	}
+	guard := func(f func() ans) (a ans, panicked bool) {
+		defer func() {
+			if r := recover(); r != nil {
+				panicked = true
+			}
+		}()
+		return f(), false
+	}
+	freshHash := func(x *boc.Cell) func() ans {
+		return func() ans {
+			h, err := x.Hash()
+			return ans{hex.EncodeToString(h), errStr(err)}
+		}
+	}
+	want, p := guard(freshHash(root))
+	if p {
+		return "skip"
+	}
+	wantBoc, p := guard(func() ans {
+		b, err := root.ToBoc()
+		return ans{hex.EncodeToString(b), errStr(err)}
+	})
+	if p {
+		return "skip"
+	}
+	hs := boc.NewHasher()
+	viaHasher := func(x *boc.Cell) func() ans {
+		return func() ans {
+			h, err := hs.Hash(x)
+			return ans{hex.EncodeToString(h), errStr(err)}
+		}
+	}
+	type step struct {
+		name string
+		f    func() ans
+		want ans
+	}
+	steps := []step{
+		{"hash1", viaHasher(root), want},
+		{"hashstring", func() ans {
+			s, err := hs.HashString(root)
+			return ans{s, errStr(err)}
+		}, want},
+		{"hash2", viaHasher(root), want},
+		{"toboc", func() ans {
+			b, err := root.ToBocCustomWithHasher(hs, false, false, false, 0)
+			return ans{hex.EncodeToString(b), errStr(err)}
+		}, wantBoc},
+		{"hash3", viaHasher(root), want},
+	}
+	for i, ch := range root.Refs() {
+		if ch == nil {
+			continue
+		}
+		w, p := guard(freshHash(ch))
+		if p {
+			continue
+		}
+		steps = append(steps, step{fmt.Sprintf("child%d", i), viaHasher(ch), w})
+	}
+	for _, st := range steps {
+		got, p := guard(st.f)
+		if p {
+			return "panic-" + st.name
+		}
+		if got != st.want {
+			return "differs-" + st.name
+		}
+	}
+	return "ok"
 }
 
 func c07CountCells(root *boc.Cell) int {
@@ -78,16 +170,24 @@ type c07HashStats struct {
 	maxUsPerCell  float64 // among roots with >= 10 cells
 	maxUsPerCellN int
 	statuses      map[string]int
+	reuse         map[string]int
+	genericHangs  int
+	deepHangs     int
 }
 
-var c07hs = c07HashStats{statuses: map[string]int{}}
+var c07hs = c07HashStats{statuses: map[string]int{}, reuse: map[string]int{}}
 
 // c07HashOracle: hashing and re-serialising the roots parsed from in terminate
 // (c07HashTimeout) and allocate in proportion to the number of distinct cells.
 // Returns false when the call hung or crashed: the input must not be executed
 // again.
 func c07HashOracle(c *Ctx, in sx.V, ncells int) bool {
-	if c07hs.hangs >= c07MaxHangs {
+	return c07HashOracleH(c, in, ncells, &c07hs.hangs)
+}
+
+// c07HashOracleH is c07HashOracle with the hang budget of the calling stream.
+func c07HashOracleH(c *Ctx, in sx.V, ncells int, hangs *int) bool {
+	if *hangs >= c07MaxHangs {
 		return false
 	}
 	n := len(in.Bytes)
@@ -95,11 +195,11 @@ func c07HashOracle(c *Ctx, in sx.V, ncells int) bool {
 		res := guardedExec("c07.hash", in, c07HashTimeout)
 		switch {
 		case isAtom(res, "timeout"):
-			c07hs.hangs++
+			*hangs++
 			c.Fail("c07.hash", in, "hash-timeout", fmt.Sprintf("Hash/ToBoc of the cells parsed from this %d-byte BOC (%d cells) did not finish within %v", n, ncells, c07HashTimeout))
 			return false
 		case isAtom(res, "crash"):
-			c07hs.hangs++
+			*hangs++
 			c.Fail("c07.hash", in, "hash-unbounded", fmt.Sprintf("Hash/ToBoc of the cells parsed from this %d-byte BOC (%d cells) killed the process (out of memory / stack overflow)", n, ncells))
 			return false
 		case isAtom(res, "panic"):
@@ -114,7 +214,7 @@ func c07HashOracle(c *Ctx, in sx.V, ncells int) bool {
 		}
 		over := ""
 		for _, ri := range res.List {
-			if ri.K != sx.KL || len(ri.List) != 6 {
+			if ri.K != sx.KL || len(ri.List) != 7 {
 				c.Fail("c07.hash", in, "harness-error", "unexpected answer of the c07.hash exec: "+trunc(res.String(), 100))
 				return true
 			}
@@ -129,6 +229,13 @@ func c07HashOracle(c *Ctx, in sx.V, ncells int) bool {
 			if ri.List[4].IsA("fail") {
 				c.Fail("c07.parse", in, "reserialize", "re-serialised output of a parsed cell does not parse")
 			}
+			reuse := ri.List[6].Atom
+			if strings.HasPrefix(reuse, "panic-") {
+				c.Fail("c07.hash", in, "hasher-reuse-panic", fmt.Sprintf("one boc.Hasher used on a root (%d cells) parsed from this %d-byte BOC for Hash, HashString, Hash, ToBocCustomWithHasher, Hash, Hash of each child: the call '%s' panicked (a fresh cache does not)", cells, n, strings.TrimPrefix(reuse, "panic-")))
+			} else if strings.HasPrefix(reuse, "differs-") {
+				c.Fail("c07.hash", in, "hasher-reuse-differs", fmt.Sprintf("one boc.Hasher used on a root (%d cells) parsed from this %d-byte BOC for Hash, HashString, Hash, ToBocCustomWithHasher, Hash, Hash of each child: the call '%s' returned another value/error than a fresh cache", cells, n, strings.TrimPrefix(reuse, "differs-")))
+			}
+			c07hs.reuse[reuse]++
 			// statistics
 			c07hs.statuses[ri.List[0].Atom]++
 			if cells <= 8 {
@@ -161,8 +268,8 @@ func c07HashOracle(c *Ctx, in sx.V, ncells int) bool {
 
 func c07HashStatsString() string {
 	s := c07hs
-	return fmt.Sprintf("hash calls %d, max hash alloc per cell (cells>8) %.0f (%s), max hash alloc for <= 8 cells %d, max hash call %d us, max us per cell (cells>=10) %.1f (%d cells), statuses %v, hangs %d\n",
-		s.n, s.maxPerCell, s.maxPerCellIn, s.maxFew, s.maxUs, s.maxUsPerCell, s.maxUsPerCellN, s.statuses, s.hangs)
+	return fmt.Sprintf("hash calls %d, max hash alloc per cell (cells>8) %.0f (%s), max hash alloc for <= 8 cells %d, max hash call %d us, max us per cell (cells>=10) %.1f (%d cells), statuses %v, hasher reuse %v, hangs %d\n",
+		s.n, s.maxPerCell, s.maxPerCellIn, s.maxFew, s.maxUs, s.maxUsPerCell, s.maxUsPerCellN, s.statuses, s.reuse, s.hangs+s.genericHangs+s.deepHangs)
 }
 
 // ---------------------------------------------------------------------------
@@ -369,5 +476,60 @@ func c07ExoticSharing(c *Ctx, r *prng.R) {
 				}
 			}
 		}
+	}
+}
+
+// ---------------------------------------------------------------------------
+// family "deep": trees around and beyond the depth limit of the hasher
+// (maxDepth 1024: Hash answers ErrDepthIsTooBig, which must leave nothing
+// behind in a long-lived Hasher), as chains and as a deep branch under a
+// shallow root.
+
+func c07Deep(c *Ctx, r *prng.R) {
+	chain := func(dag []Node, from, n int) {
+		for i := 0; i+1 < n; i++ {
+			dag[from+i].Refs = append(dag[from+i].Refs, from+i+1)
+		}
+	}
+	var cases []c07ShareCase
+	for _, n := range []int{1023, 1027, 1100} {
+		if n != 1100 && !c.Thorough() {
+			continue // chains of 1024, 1025, 1026 cells are in the adversarial list
+		}
+		dag := make([]Node, n)
+		chain(dag, 0, n)
+		cases = append(cases, c07ShareCase{"chain", dag})
+	}
+	// root -> (leaf, chain of n): the deep branch is the second reference
+	for _, n := range []int{1023, 1024, 1030} {
+		if n == 1023 && !c.Thorough() {
+			continue
+		}
+		dag := make([]Node, n+2)
+		dag[0].Refs = []int{1, 2}
+		chain(dag, 2, n)
+		cases = append(cases, c07ShareCase{"branch", dag})
+	}
+	// root -> a -> b -> (deep chain, deep chain again, leaf): shared deep branch
+	{
+		n := 1040
+		dag := make([]Node, n+4)
+		dag[0].Refs = []int{1}
+		dag[1].Refs = []int{2, n + 3}
+		dag[2].Refs = []int{3, 3, n + 3}
+		chain(dag, 3, n)
+		cases = append(cases, c07ShareCase{"shared-branch", dag})
+	}
+	for _, sc := range cases {
+		for i := range sc.dag {
+			sc.dag[i].Bits = randBits(r, r.Intn(9))
+		}
+		in := sx.Bytes(refSerialize(sc.dag, []int{0}, HeaderVariant{}, r))
+		class := "deep|" + sc.name
+		c.Note("c07.hash", class, in)
+		if !c07HashOracleH(c, in, len(sc.dag), &c07hs.deepHangs) {
+			continue
+		}
+		c07Oracle(c, in, c.EmitGuarded("c07.parse", in, class))
 	}
 }
